@@ -1,0 +1,24 @@
+//! Verification-only access to the crate-private filter operator functions.
+//! Compiled only with the `__verif` feature; not part of the public API.
+use crate::ir::FieldValue;
+
+use super::filtering;
+
+/// Evaluate a positive (non-negated) binary filter operator by its query-language name.
+/// Returns `None` for names that have no stand-alone operator function.
+pub fn filter_op(name: &str, left: &FieldValue, right: &FieldValue) -> Option<bool> {
+    Some(match name {
+        "=" => filtering::equals(left, right),
+        "<" => filtering::less_than(left, right),
+        "<=" => filtering::less_than_or_equal(left, right),
+        ">" => filtering::greater_than(left, right),
+        ">=" => filtering::greater_than_or_equal(left, right),
+        "has_substring" => filtering::has_substring(left, right),
+        "has_prefix" => filtering::has_prefix(left, right),
+        "has_suffix" => filtering::has_suffix(left, right),
+        "one_of" => filtering::one_of(left, right),
+        "contains" => filtering::contains(left, right),
+        "regex" => filtering::regex_matches_slow_path(left, right),
+        _ => return None,
+    })
+}
